@@ -183,6 +183,18 @@ def main(mod, tier, seed, replay=None):
         return rc
 
     specs = mod.plan(tier, seed)
+    only = os.environ.get("VERIF_ONLY_SHARDS")
+    if only:
+        # developer aid (never used by a registered command): run a subset of the shards; the
+        # evidence of such a run goes to a scratch directory unless VERIF_EVIDENCE_DIR says otherwise
+        import re as _re
+
+        specs = [s for s in specs if _re.search(only, s.get("name", ""))]
+        print("NOTE: VERIF_ONLY_SHARDS=%s -> %d shards; not a registered run" % (only, len(specs)))
+        if not os.environ.get("VERIF_EVIDENCE_DIR"):
+            global EVID_DIR
+            EVID_DIR = os.path.join(boot.BUILD, "run", "partial-evidence")
+            os.makedirs(EVID_DIR, exist_ok=True)
     for s in specs:
         s.setdefault("tier", tier)
         s.setdefault("seed", seed)
